@@ -134,6 +134,20 @@ def stepCore (tol : Tol) (st : St) (j : Json) : Except String (St × Json) := do
     match copyRegion st.next st.next src changes with
     | .ok (r, n) => pure (bind { st with next := n } (← fStr j "dst") r, Json.str "ok")
     | .error e => pure (st, Json.str (excStr e))
+  | "rebuild" => do
+    -- `type(src)(**{p: getattr(src, p) for p in src._params})`: the parameter objects themselves,
+    -- no meta / visual argument
+    let src ← getRef st (← field j "src")
+    match src with
+    | .node _ (.region cls) fs =>
+      match classInfo? cls with
+      | none => pure (st, Json.str "TypeError")
+      | some c =>
+        let args := c.params.map fun p => (p, fs.getD p (.atom .none))
+        match construct c args st.next with
+        | .ok (r, n) => pure (bind { st with next := n } (← fStr j "dst") r, Json.str "ok")
+        | .error e => pure (st, Json.str (excStr e))
+    | _ => pure (st, Json.str "AttributeError")
   | "deepcopy" => do
     let src ← getRef st (← field j "src")
     let (r, n) := deepcopy st.next st.next src
@@ -184,10 +198,16 @@ def stepCore (tol : Tol) (st : St) (j : Json) : Except String (St × Json) := do
       | o => throw s!"unknown mutation {o}"
     match at_ with
     | .node i k fs =>
-      let res := match op.apply k fs with
-        | .ok _ => Json.str "ok"
-        | .error e => Json.str (excStr e)
-      pure ({ st with world := st.world.mutate ⟨i, op⟩ }, res)
+      match op.apply k fs with
+      | .error e => pure (st, Json.str (excStr e))
+      | .ok _ =>
+        match op with
+        | .set key v =>
+          -- attribute assignment may trigger further writes (`RegularPolygonPixelRegion.__setattr__`)
+          match setAttrWrites at_ key v st.next with
+          | .error e => pure (st, Json.str (excStr e))
+          | .ok (ws, n) => pure ({ st with world := st.world.mutateAll ws, next := n }, Json.str "ok")
+        | _ => pure ({ st with world := st.world.mutate ⟨i, op⟩ }, Json.str "ok")
     | .atom _ => throw "mutation target is not an object"
   | "slice" => do
     let src ← getRef st (← field j "src")
